@@ -1,0 +1,20 @@
+//go:build verif
+// +build verif
+
+package jsonrpc2
+
+import "context"
+
+// VerifWithService returns a context carrying s as the calling service, as
+// Remote and Local do for the handlers they invoke (verification hook, only
+// built with -tags verif).
+func VerifWithService(ctx context.Context, s Service) context.Context {
+	return context.WithValue(ctx, ctxService, s)
+}
+
+// VerifPendingLen returns the number of entries in the pending-reply table.
+func (r *Remote) VerifPendingLen() int {
+	r.mu.Lock()
+	defer r.mu.Unlock()
+	return len(r.pending)
+}
